@@ -11,7 +11,7 @@ survivors-intact.  DESIGN.md §4 C05.  Concatenated holes/data: see C04.
 from __future__ import annotations
 
 from .. import treecheck
-from ..treeprop import DROP_ASC, DROP_DESC, HOLD_ASC, HOLD_DESC, TreeProp
+from ..treeprop import DROP_ASC, DROP_DESC, GC_DROP, HOLD_ASC, HOLD_DESC, TreeProp
 
 QUICK = [
     ("S4", DROP_ASC, 1, "DEL"),
@@ -24,6 +24,8 @@ THOROUGH = []
 for _c in (DROP_ASC, HOLD_DESC, DROP_DESC, HOLD_ASC):
     THOROUGH += [("S4", _c, 3, "DEL"), ("S4r", _c, 2, "DEL"), ("S2", _c, 3, "DEL"), ("S1", _c, 4, "DEL"), ("S2r", _c, 3, "DEL"),
                  ("S1", _c, 3, "FULL"), ("S4", _c, 4, "DELCORE")]
+
+THOROUGH += [("S2", GC_DROP, 2, "GCOPS"), ("S4", GC_DROP, 1, "GCOPS")]
 
 P = TreeProp(
     "C05",
